@@ -113,8 +113,10 @@ harnesses! {
     #[kani::unwind(5)] fn c03_abs_atomic_repeat() [T0 S] : "Q|AtomicRepeat<Choice2<push,pop>> (the skip node itself)" {
         abs3nf::<AtomicRepeat<Choice2<Abs<0, 1>, Abs<1, 2>>>, RRep<REmpty, 0, RChoice2<RAbs<0, 1>, RAbs<1, 2>>, 0, { usize::MAX }>>(PROG, 1) }
     // ---- predicates, push
-    #[kani::unwind(5)] fn c03_abs_positive() [T0 S] : "Q|Positive<Seq2<push,pop>>: stack restored even on success" {
-        abs3z::<Positive<Seq2<Nk<Abs<0, 1>>, Nk<Abs<1, 2>>>>, RPos<RSeq2<RSk, 0, RAbs<0, 1>, RAbs<1, 2>>>>(FREE, 1) }
+    #[kani::unwind(5)] fn c03_abs_positive() [T0 S] : "Q|Positive<Seq2<push,pure>>: stack restored even on success, on both paths" {
+        abs3z::<Positive<Seq2<Nk<Abs<0, 1>>, Nk<Abs<1, 0>>>>, RPos<RSeq2<RSk, 0, RAbs<0, 1>, RAbs<1, 0>>>>(FREE, 1) }
+    #[kani::unwind(5)] fn c03_abs_positive_pop() [T0 S] : "Q|Positive<Seq2<pop,pure>>: a popped entry is back after a successful lookahead, on both paths" {
+        abs3z::<Positive<Seq2<Nk<Abs<0, 2>>, Nk<Abs<1, 0>>>>, RPos<RSeq2<RSk, 0, RAbs<0, 2>, RAbs<1, 0>>>>(FREE, 2) }
     #[kani::unwind(5)] fn c03_abs_negative() [T0 S] : "Q|Negative<Seq2<pop,pure>>" {
         abs3z::<Negative<Seq2<Nk<Abs<0, 2>>, Nk<Abs<1, 0>>>>, RNeg<RSeq2<RSk, 0, RAbs<0, 2>, RAbs<1, 0>>>>(FREE, 1) }
     #[kani::unwind(5)] fn c03_abs_push() [T0 S] : "Q|Push<Seq2 with skip>" {
